@@ -312,12 +312,23 @@ impl<'a> Cx<'a> {
                 syn::Pat::Reference(r) => &*r.pat,
                 q => q,
             };
-            if let syn::Pat::Lit(syn::ExprLit { lit: syn::Lit::Int(i), .. }) = q {
-                Some(i.base10_digits().to_string())
-            } else {
-                None
+            match q {
+                syn::Pat::Lit(syn::ExprLit { lit: syn::Lit::Int(i), .. }) => Some(i.base10_digits().to_string()),
+                syn::Pat::Lit(syn::ExprLit { lit: syn::Lit::Byte(b), .. }) => Some(b.value().to_string()),
+                _ => None,
             }
         };
+        if let syn::Pat::Or(po) = p {
+            // `p | q`: either test (no bindings)
+            let mut ts = vec![];
+            for q in &po.cases {
+                match self.arm_test(q, s)? {
+                    (Some(t), None) => ts.push(t),
+                    _ => return err(q.span(), "binding / catch-all alternatives in an or-pattern are unsupported"),
+                }
+            }
+            return Ok((Some(format!("({})", ts.join(" || "))), None));
+        }
         match p {
             syn::Pat::Wild(_) => Ok((None, None)),
             syn::Pat::Ident(pi) if pi.by_ref.is_none() && pi.subpat.is_none() && pi.ident != "None" => {
@@ -380,6 +391,57 @@ impl<'a> Cx<'a> {
         }
         if arms.is_empty() {
             return err(e.span(), "`match` without arms");
+        }
+        // `match opt { Some(p) => A, None | _ => B }` with a binding `p` (rule 24): as `if let`
+        if let Ty::Opt(_) = &s.ty {
+            if arms.len() == 2 && arms.iter().all(|a| a.guard.is_none()) {
+                let binder = |p: &syn::Pat| -> bool {
+                    fn strip(q: &syn::Pat) -> &syn::Pat {
+                        match q {
+                            syn::Pat::Reference(r) => strip(&r.pat),
+                            syn::Pat::Paren(r) => strip(&r.pat),
+                            q => q,
+                        }
+                    }
+                    match p {
+                        syn::Pat::TupleStruct(ts) if ts.path.is_ident("Some") && ts.elems.len() == 1 => {
+                            matches!(strip(&ts.elems[0]), syn::Pat::Ident(_) | syn::Pat::Tuple(_))
+                        }
+                        _ => false,
+                    }
+                };
+                let none_like = |p: &syn::Pat| -> Option<&'static str> {
+                    match p {
+                        syn::Pat::Wild(_) => Some("_"),
+                        syn::Pat::Ident(pi) if pi.ident == "None" => Some("None"),
+                        _ => None,
+                    }
+                };
+                let pick = if binder(&arms[0].pat) && none_like(&arms[1].pat).is_some() {
+                    Some((arms[0], arms[1]))
+                } else if binder(&arms[1].pat) && none_like(&arms[0].pat) == Some("None") {
+                    Some((arms[1], arms[0]))
+                } else {
+                    None
+                };
+                if let Some((sa, na)) = pick {
+                    let pb = self.some_pattern(&sa.pat, &s.ty)?;
+                    let other = none_like(&na.pat).unwrap().to_string();
+                    let (sbody, nbody) = (&*sa.body, &*na.body);
+                    return self.lower_branches(
+                        e.span(),
+                        Cond { c: s.t.clone(), m: Some((pb.pat.clone(), other)) },
+                        expected,
+                        &mut |cx, ex| {
+                            cx.push_pat_scope(&pb);
+                            let r = cx.lower_expr(sbody, ex);
+                            cx.scopes.pop();
+                            r
+                        },
+                        &mut |cx, ex| cx.lower_arm(nbody, ex),
+                    );
+                }
+            }
         }
         self.lower_arms(e.span(), &arms, &s, expected)
     }
@@ -538,7 +600,12 @@ impl<'a> Cx<'a> {
         let tys = self.state_types(&vars);
         let vars: Vec<String> = vars.iter().map(|x| self.cn(x)).collect();
         let res = self.fresh();
-        self.push(S::Loop { id, kind: LoopKind::Fuel(fuel), vars, tys, body: b, res });
+        // a `loop { .. }` without a `break` of its own never ends normally (rule 26)
+        let diverges = cond.is_none() && !crate::emit::breaks(&b, id);
+        self.push(S::Loop { id, kind: LoopKind::Fuel(fuel), vars, tys, body: b, res, diverges });
+        if diverges {
+            return Ok(Val::never());
+        }
         Ok(Val::unit())
     }
 
@@ -608,7 +675,7 @@ impl<'a> Cx<'a> {
         let tys = self.state_types(&vars);
         let vars: Vec<String> = vars.iter().map(|x| self.cn(x)).collect();
         let res = self.fresh();
-        self.push(S::Loop { id, kind, vars, tys, body, res });
+        self.push(S::Loop { id, kind, vars, tys, body, res, diverges: false });
         Ok(Val::unit())
     }
 
@@ -644,6 +711,9 @@ impl<'a> Cx<'a> {
                 let x = p.path.get_ident().unwrap().to_string();
                 match self.lookup(&x) {
                     Some((_, Var { ty: Ty::Seq(t), cname, .. })) => Ok((cname.clone(), (**t).clone())),
+                    // `for c in slice` (rule 26)
+                    Some((_, Var { ty: Ty::Bytes, cname, .. })) => Ok((cname.clone(), Ty::Int(IntTy::U8))),
+                    Some((_, Var { ty: Ty::Slice, cname, .. })) => Ok((cname.clone(), u64t)),
                     _ => err(e.span(), format!("`{}` is not an iterator", x)),
                 }
             }
@@ -655,6 +725,7 @@ impl<'a> Cx<'a> {
                         let r = self.lower_pure(&m.receiver, None)?;
                         match r.ty {
                             Ty::Slice | Ty::Table => Ok((r.t, u64t)),
+                            Ty::Bytes => Ok((r.t, Ty::Int(IntTy::U8))),
                             Ty::Vec => Ok((format!("(vl {})", r.t), u64t)),
                             t => err(e.span(), format!("`iter()` on a value of type {}", t)),
                         }
@@ -686,6 +757,26 @@ impl<'a> Cx<'a> {
                 }
             }
             _ => err(e.span(), "unsupported iterator expression"),
+        }
+    }
+
+    /// an expression / block that must be effect-free, `let`s allowed: `(let x := .. in e)`
+    pub fn lower_pure_lets(&mut self, e: &syn::Expr, expected: Option<&Ty>) -> R<Val> {
+        self.stmts.push(vec![]);
+        let v = self.lower_expr(e, expected);
+        let pre = self.stmts.pop().unwrap();
+        let v = v?;
+        let mut lets = String::new();
+        for s in &pre {
+            match s {
+                S::Let(p, t) => lets.push_str(&format!("let {} := {} in ", p, t)),
+                _ => return err(e.span(), "an effect-free expression is required here"),
+            }
+        }
+        if lets.is_empty() {
+            Ok(v)
+        } else {
+            Ok(Val::new(format!("({}{})", lets, v.t), v.ty))
         }
     }
 
